@@ -96,7 +96,8 @@ class Profiles:
         'time': r'0|{num}m?s',
         'frequency': r'0|{num}k?Hz',
         'percentage': r'{num}%',
-        'shadow': '(inset)?{w}{length}{w}{length}{w}{length}?{w}{length}?{w}{color}?',
+        # white space belongs to the part it precedes: one way to match
+        'shadow': r'(inset\s+)?{length}\s+{length}(\s+{length})?(\s+{length})?(\s+{color})?',
     }
 
     def __init__(self, log=None):
